@@ -67,7 +67,9 @@ Updated(i, how) ==
   /\ IF how = "invalid"
        THEN /\ heap' = heap /\ obs' = O(<<"updated", "rejected">>)
        ELSE /\ Len(heap) < MaxObjs
-            /\ LET nv == IF how = "valid" THEN (IF heap[i].val = 1 THEN 2 ELSE 1) ELSE heap[i].val IN
+            /\ LET nv == IF how # "valid" THEN heap[i].val
+                         ELSE IF heap[i].cls = "miss" THEN (IF heap[i].val = 0 THEN 1 ELSE 0)   \* 0 = reset to MISSING
+                         ELSE (IF heap[i].val = 1 THEN 2 ELSE 1) IN
                /\ heap' = IF Bug = "update_in_place" /\ how = "valid"
                             THEN Append([heap EXCEPT ![i].val = nv], Obj(heap[i].cls, nv, 0))
                             ELSE Append(heap, Obj(heap[i].cls, nv, 0))
